@@ -707,10 +707,15 @@ SPECS['C16'] = dict(
            'reader lock always released', timeout=(300, 1500), nontrivial_witness=True),
         smt('joinable-1', 'harness.c16', 'ob_jq_1', 'capacity never exceeded; join returns only after every earlier put was matched; everybody finishes; counters restored',
             timeout=(900, 3000), replay_function='replay_jq'),
+        smt('joinable-full', 'harness.c16', 'ob_jq_full', 'a full JoinableQueue (capacity 1, one counted item waiting): a non-blocking put racing with the consumer that takes and finishes the waiting item - '
+            'a put refused with Full leaves no unfinished task behind (join returns once the consumer is done), an accepted one never exceeds the capacity', timeout=(900, 3000), replay_function='replay_jq'),
         smt('joinable-overcount', 'harness.c16', 'ob_jq_1_overcount', 'task_done beyond the count raises ValueError', timeout=(900, 3000), replay_function='replay_jq'),
         smt('first-put-race', 'harness.c16', 'ob_q_feeder', 'two threads racing on the first put of a plain Queue (real Queue.put compiled, _thread a shared '
             'attribute, Queue._start_thread sliced from its source): exactly one feeder thread is started and neither item is dropped by a second start',
             timeout=(600, 1200), replay_function='replay_jq'),
+        ch('simplequeue-transfers-are-locked', 'harness.c16', 'h_sq_locked', 'what the model-checked SimpleQueue scenario assumes of every transfer, on the real send_payload / get_payload with a payload whose '
+           'length is a solver variable (0..2**31): one send of exactly that object while the write lock is held, one receive while the read lock is held, both locks released afterwards, also '
+           'when the transfer fails', timeout=(120, 600), nontrivial_witness=True),
         smt('simplequeue', 'harness.c16', 'ob_simplequeue', 'SimpleQueue ("a locked pipe"): 2 producers || 2 consumers over the real put/get/send_payload/get_payload, a message '
             'transfer being two steps (header, body): no writer or reader ever gets inside another one\'s message, everybody finishes, every message is taken once',
             timeout=(900, 3000), replay_function='replay_jq'),
